@@ -21,8 +21,11 @@
 package main
 
 import (
+	"encoding/json"
 	"fmt"
+	"io"
 	"os"
+	"os/exec"
 	"path/filepath"
 	"regexp"
 	"sort"
@@ -90,6 +93,9 @@ var reIdx = regexp.MustCompile(`\[\d+\]|\.#\d+|~\d+`)
 
 // fieldOf strips indices and leaf suffixes from a path: ".mulR3.aTilde[5][1]!" -> "mulR3.aTilde".
 func fieldOf(path string) string {
+	if i := strings.Index(path, "^"); i >= 0 {
+		path = path[:i] // inside an embedded item: the field is the byte string that carries it
+	}
 	p := reIdx.ReplaceAllString(path, "")
 	p = strings.NewReplacer("!", "", "@len", "", "@tag", "").Replace(p)
 	return strings.TrimPrefix(p, ".")
@@ -594,6 +600,9 @@ func wantOf(classes map[string]string, a *adapter, m *mutation) string {
 	if m.op.Kind == tamper.OpReplay {
 		return "" // a whole valid message of another sender / session: judged by (a)-(c) only, and by C08/C10 for the binding
 	}
+	if strings.Contains(m.path, "^") {
+		return "" // inside a proof carried as opaque bytes: what a proof binds is C08's subject; (a)-(c) only
+	}
 	if structuralOp(m) {
 		return "bound"
 	}
@@ -736,6 +745,9 @@ var quota = map[string]map[string]int{
 
 // opRank orders the strata so that a small quota first covers value changes of every field.
 func opRank(m *mutation) int {
+	if strings.Contains(m.path, "^") && (m.kind == tamper.KMapLen || m.kind == tamper.KArrLen) && m.op.Kind == tamper.OpTruncate {
+		return 1 // a component missing inside an embedded proof: the decoder / verifier must refuse, not crash
+	}
 	if m.kind == tamper.KBytes || m.kind == tamper.KUint || m.kind == tamper.KNint {
 		switch m.op.Kind {
 		case tamper.OpFlip:
@@ -769,8 +781,118 @@ func opRank(m *mutation) int {
 	return 9
 }
 
+// supervise runs the harness proper as a child process.  A panic in a goroutine started by the
+// library (e.g. the branch verifiers of an AND-composed proof) cannot be recovered by anybody and
+// takes the whole process down: the child records the case it is about to run in a progress file,
+// so that the supervisor can report exactly that case as a crash (clause (a)) and restart the
+// child with the case on its skip list.
+func supervise(a vh.Args) {
+	dir, err := os.MkdirTemp("", "c04-")
+	if err != nil {
+		fmt.Fprintln(os.Stderr, err)
+		os.Exit(2)
+	}
+	defer os.RemoveAll(dir)
+	progress, skip := filepath.Join(dir, "progress"), filepath.Join(dir, "skip")
+	var crashes []vh.Mismatch
+	var skipped []string
+	for attempt := 0; attempt < 8; attempt++ {
+		os.Remove(a.Out)
+		os.Remove(progress)
+		os.WriteFile(skip, []byte(strings.Join(skipped, "\n")), 0o644)
+		cmd := exec.Command(os.Args[0], os.Args[1:]...)
+		cmd.Env = append(os.Environ(), "C04_WORKER=1", "C04_PROGRESS="+progress, "C04_SKIP="+skip)
+		var errb tailBuffer
+		cmd.Stdout = os.Stdout
+		cmd.Stderr = io.MultiWriter(os.Stderr, &errb)
+		runErr := cmd.Run()
+		if _, statErr := os.Stat(a.Out); runErr == nil && statErr == nil {
+			break
+		}
+		cur, _ := os.ReadFile(progress)
+		c := strings.TrimSpace(string(cur))
+		if c == "" {
+			fmt.Fprintf(os.Stderr, "c04: the harness died outside a case: %v\n", runErr)
+			os.Exit(2)
+		}
+		m, perr := parseCase(c)
+		proto := "unknown"
+		if perr == nil {
+			proto = m.proto
+		}
+		tail := errb.String()
+		if i := strings.Index(tail, "panic:"); i >= 0 {
+			tail = tail[i:]
+		}
+		if len(tail) > 1500 {
+			tail = tail[:1500]
+		}
+		crashes = append(crashes, vh.Mismatch{ID: fmt.Sprintf("crash-%d", attempt), Kind: "prop", Key: proto + "-process-crash",
+			Detail: "the process of the parties died while this case ran (a panic outside the calling goroutine cannot be recovered): " + strings.ReplaceAll(tail, "\n", " | "),
+			Case:   c, PropFail: true, What: "property oracle clause: no honest party crashes"})
+		skipped = append(skipped, c)
+	}
+	data, err := os.ReadFile(a.Out)
+	if err != nil {
+		fmt.Fprintln(os.Stderr, "c04: no result:", err)
+		os.Exit(2)
+	}
+	if len(crashes) == 0 {
+		return
+	}
+	var doc map[string]any
+	if json.Unmarshal(data, &doc) != nil {
+		os.Exit(2)
+	}
+	ms, _ := doc["mismatches"].([]any)
+	for _, c := range crashes {
+		b, _ := json.Marshal(c)
+		var v any
+		json.Unmarshal(b, &v)
+		ms = append(ms, v)
+	}
+	doc["mismatches"] = ms
+	out, _ := json.MarshalIndent(doc, "", " ")
+	os.WriteFile(a.Out, append(out, '\n'), 0o644)
+}
+
+// tailBuffer keeps the last 64 KiB written to it.
+type tailBuffer struct{ b []byte }
+
+func (t *tailBuffer) Write(p []byte) (int, error) {
+	t.b = append(t.b, p...)
+	if len(t.b) > 1<<16 {
+		t.b = t.b[len(t.b)-1<<16:]
+	}
+	return len(p), nil
+}
+func (t *tailBuffer) String() string { return string(t.b) }
+
 func main() {
 	a := vh.ParseArgs()
+	if os.Getenv("C04_WORKER") == "" && a.Out != "" {
+		supervise(a)
+		return
+	}
+	skipCases := map[string]bool{}
+	if data, err := os.ReadFile(os.Getenv("C04_SKIP")); err == nil {
+		for _, l := range strings.Split(string(data), "\n") {
+			if l != "" {
+				skipCases[l] = true
+			}
+		}
+	}
+	progressFile := os.Getenv("C04_PROGRESS")
+	// about marks the case that is about to run; it reports false for a case on the skip list
+	about := func(m *mutation) bool {
+		if skipCases[m.text()] {
+			return false
+		}
+		if progressFile != "" {
+			os.WriteFile(progressFile, []byte(m.text()), 0o644)
+		}
+		return true
+	}
 	res := vh.NewResult("C04", a.Seed, a.Tier)
 	res.Rule = "for each protocol (3 parties 1,2,3; keys 2-of-3) one honest run records every message; a mutation = (protocol, round, sender, recipient|broadcast, leaf path, operator) applied to the CBOR tree of ONE message (uniformly for a broadcast), operators flip / zero / truncate / extend / replace (donor of the same shape from another message, party or the parallel session) / swap (two values of one message) / drop / malformed / replay (other sender's, other recipient's, parallel session's message; the same sender's message from an ALTERNATIVE execution of the same session in which only its own randomness differs, for one message or for all its messages of a round = a consistently deviating dealer); quick: stratified sample, at least one mutation per (protocol, round, b|u, field, leaf kind, operator) up to a fixed quota; thorough: a larger quota over all senders and recipients; non-trivial = the mutated bytes differ and were delivered"
 	tier := a.Tier
@@ -864,6 +986,10 @@ func main() {
 					}
 				}
 			}
+			if !about(m) {
+				res.Count(m.proto+"/skipped-after-crash", m.text(), false)
+				continue
+			}
 			classes, _ := modelClasses(a.Driver, []*mutation{m})
 			rep := evaluate(st.a, a.Seed, m, st.pool, wantOf(classes, st.a, m))
 			report(st, m, rep, idBase+n)
@@ -885,6 +1011,9 @@ func main() {
 	// the corpus (regression cases of earlier findings) runs first
 	if data, err := os.ReadFile(filepath.Join(keys.Root(), "corpus", "c04", "cases.txt")); err == nil {
 		runCases(string(data), 100000, false)
+		if progressFile != "" {
+			os.Remove(progressFile)
+		}
 	}
 
 	for _, ad := range ads {
@@ -976,8 +1105,15 @@ func main() {
 			}
 		}
 		for i, m := range chosen {
+			if !about(m) {
+				res.Count(m.proto+"/skipped-after-crash", m.text(), false)
+				continue
+			}
 			rep := evaluate(ad, a.Seed, m, st.pool, wantOf(classes, ad, m))
 			report(st, m, rep, i)
+		}
+		if progressFile != "" {
+			os.Remove(progressFile)
 		}
 		if os.Getenv("C04_VERBOSE") != "" {
 			fmt.Fprintf(os.Stderr, "## %s: %d runs, %.1f cpu-s\n", ad.name, len(chosen), cpuSeconds()-cpu0)
